@@ -8,6 +8,21 @@ CHECKS = {
  "C26": dict(cat="exploration", tech="exhaustive static enumeration of raise sites (python ast) + Hypothesis-generated construction of every site's exception + dynamic probes",
    text="Every coded raise site of the current tree is enumerated (exhaustive over the finite set of sites) and its error is constructed with generated argument values; complete for literal-code sites, dynamic-code sites are only counted.",
    note="Trusts python's ast for call-site discovery; sites that compute their code or pass **kwargs are listed, not asserted. Reachability of each site by a script is shown only for the probes listed in the check.", ref="§3 C26"),
+ "C24": dict(cat="exploration", tech="round-trip + metamorphic property testing (Hypothesis script grammar + whole upstream corpus), AST equality oracle, run-level differential",
+   text="prettify is checked on every parseable corpus script and on generated scripts: output parses, AST equal modulo positions/comments/explicit defaults, idempotent, comments kept, run() results equal on executable cases.",
+   note="Parse trees come from the parser stand-in (ANTLR 4.11.1 Java interpreter over the repo's ATN, SLL). AST equality treats an omitted mode keyword and the explicitly written default as equal. Generated-input search: absence of violations is not a proof.", ref="§3 C24"),
+ "C25": dict(cat="exploration", tech="round-trip + differential property testing: generate_sdmx scheme vs script (corpus + Hypothesis grammar), run(scheme)==run(script)",
+   text="For every parseable corpus script and generated scripts: one transformation per assignment (name, persistence, order), expressions and ruleset/UDO definitions re-parse to the original AST, run(scheme) equals run(script) on executable cases.",
+   note="run(scheme) goes through the installed pysdmx generate_vtl_script. Known finding C25-viral-def-dropped is reported by a dedicated probe and excluded from the run-level comparison.", ref="§3 C25"),
+ "C12": dict(cat="exploration", tech="metamorphic property testing over statement permutations (Hypothesis-generated dependency graphs + corpus), negative cycle/redefinition cases",
+   text="All tested orders of the top-level statements (all permutations for <=3 statements, <=6 in the thorough tier, sampled beyond) must be accepted alike and give equal semantic structures and run results; generated cycles / redefinitions must raise 1-3-2-3 / 1-2-2 in every order.",
+   note="Statements are cut at parse-tree boundaries of the parser stand-in. Permutations beyond the exhaustive bound are sampled.", ref="§3 C12"),
+ "C10": dict(cat="exploration", tech="property testing with a validity-predicate oracle: run() output vs semantic_analysis() structure, per-type value predicates (corpus x 4 period formats + generated scripts)",
+   text="Every dataset returned by run() on corpus and generated scripts is compared with the semantic_analysis prediction (names, roles, types, nullability, column order) and its values are checked against per-type predicates, identifier uniqueness/non-null and nullability.",
+   note="Value predicates are transcribed from docs/data_types.rst output forms; an Integer cell may be an integral float. Known finding C10-hr-errorlevel-string reported by a probe.", ref="§3 C10"),
+ "C14": dict(cat="exploration", tech="differential property testing: in-memory run vs output_folder run read back with independent CSV/Parquet readers (corpus + Hypothesis tables with quoting/null edge values)",
+   text="Same run in memory and with output_folder (csv/parquet x return_only_persistent): file set, headers, rows as keyed sets, _scalars.csv and absence of in-memory data are compared.",
+   note="CSV read with an own RFC 4180 parser (keeps null vs empty string), Parquet with pyarrow; numeric tolerance 1e-9 relative.", ref="§3 C14"),
 }
 NOT_YET = "check not built yet in this session (work in progress, see DESIGN.md §5)"
 
